@@ -370,7 +370,8 @@ class ControlParser(ArgumentParser):
             long = f'--{parameter.name.replace("_", "-")}'
             # We try to generate a short version (flag) for the argument.
             letter = parameter.name[0]
-            if letter not in self._flags:
+            # (`-h` is taken by the help option that every parser has.)
+            if letter not in self._flags and letter != "h":
                 flag = f"-{letter}"
                 self._flags.add(letter)
             elif letter.upper() not in self._flags:
